@@ -42,12 +42,35 @@
                                 every candidate rule and every atom is a stored rule up to equivalence and
                                 the root is the representative of the start label (given that verification
                                 rules have no children);
+   * C13_construct_total        ParallelInfo._construct_eq_label_rules is TOTAL on well-formed rule databases:
+                                under db_wf db lis (Parallel/InfoTotal.v: every entry of lis has a stored preimage;
+                                a used key with a non-empty atom parent carries a verification rule; a used key with
+                                a non-empty non-atom parent and a `Rule` has children) the model never answers CErr
+                                (KeyError / AssertionError / RuntimeError: the class of failures a172a92 repaired);
+                                C13_construct_ok: with only_atoms_verified in addition it answers COk (no refusal);
+                                C13_db_wf_decidable: db_wfb / only_atoms_verified_b decide the two hypotheses;
+                                C13_run_reports_coverage: run_c13 evaluates both deciders on every replayed rule
+                                database (fields w1, w2) and whenever it prints an odd w the c field of that side is
+                                0, 5 or 7.  Near misses (one clause of db_wf violated, CErr answered): Examples
+                                C13_construct_near_miss_key / _atom / _children;
    * C13_spec_from_label_map    the specification stage: on a label map whose reachable tuples are stored
                                 rules up to equivalence, SpecificationRuleExtractor invoked with the START
                                 label does not fail and yields a closed rules dictionary with a rule for the
                                 start label (C02's theorem) — also when the start label is not its own
                                 representative (Examples; with the root equivalence label instead, as
                                 before a34d719, the start label gets no rule);
+   * C13_label_map_meets_constructor_contract   the bridge to C02's model of CombinatorialSpecification.__init__
+                                (Spec/Grouping.v spec_init, hypothesis wf_input of C02_constructor_never_raises): the
+                                rule set the extractor builds from a label map, read as rule objects through RULE DATA
+                                (children incl. empty classes, is_equivalence(); contract ruledata_ok: equivalence
+                                rules are handed out unary, extra children are empty), satisfies SIX of the seven
+                                clauses of wf_input - path_free, keyed, unary_eqv, closed, root_ok and REACHABLE
+                                (C13_rule_set_reachable: every class of the rule set is reachable from the start class;
+                                needs find_path to stay inside the equivalence class and to repeat no label) - so that
+                                under the seventh, `chains` (no cycle of hidden unary equivalence rules: NOT derivable,
+                                the finder does not check productivity), wf_input holds and spec_init never answers
+                                XErr.  C13_rule_set_ctor_bridge_partial: the same from rule_set_ok alone, with
+                                `reachable` as a hypothesis (rule_set_ok as stated does not imply it);
    * C13_two_rule_sets, C13_two_rule_sets_eqpath   end to end, from the two rule databases: ParallelInfo
                                 builds the universes, find() returns, and on EACH side the specification
                                 stage succeeds with a closed rules dictionary that has a rule for that side's
@@ -70,7 +93,8 @@ From CSS Require Import Base.Sx Spec.Extractor Spec.ExtractorProofs
   Parallel.Model Parallel.Basics Parallel.First Parallel.Second Parallel.Matched Parallel.Fixed
   Parallel.Refuted Parallel.SpecStage Parallel.Memo Parallel.Term Parallel.Term2 Parallel.Term3
   Parallel.EndToEnd Parallel.EqSecond Parallel.EqTerm Parallel.EqSound Parallel.Fuel Parallel.InfoModel
-  Parallel.InfoProofs Parallel.Final Parallel.Examples Parallel.Run.
+  Parallel.InfoProofs Parallel.InfoTotal Parallel.Final Parallel.Examples Parallel.Run Parallel.RunTotal.
+From CSS Require Spec.Grouping Spec.GroupingWf Spec.GroupingInit Parallel.CtorReach Parallel.CtorBridge.
 Import ListNotations.
 
 (* ---------------------------------------------------------------- the output is a matched pair *)
@@ -130,6 +154,28 @@ Theorem C13_universe_well_formed : forall db lis s,
   ver_no_children db -> construct db lis = COk s ->
   universe_of (db_rep db) s (db_keys db) /\ s_root s = db_rep db (db_start db).
 Proof. intros db lis s Hv. exact (construct_universe db Hv lis s). Qed.
+
+(* ParallelInfo does not fail on a well-formed rule database.  db_wf is relative to the replayed order lis
+   (the pruned rules up to equivalence) and is decidable; the harness evaluates db_wfb inside run_c13 AND on the
+   real objects for every rule database it replays (extra check covered_by_theorem C13_construct_total). *)
+Theorem C13_construct_total : forall db lis,
+  db_wf db lis -> forall e, construct db lis <> CErr e.
+Proof. exact construct_total. Qed.
+
+Theorem C13_construct_ok : forall db lis,
+  db_wf db lis -> only_atoms_verified db lis -> exists s, construct db lis = COk s.
+Proof. exact construct_ok. Qed.
+
+Theorem C13_db_wf_decidable : forall db lis,
+  (db_wfb db lis = true <-> db_wf db lis) /\
+  (only_atoms_verified_b db lis = true <-> only_atoms_verified db lis).
+Proof. intros db lis. split; [apply db_wfb_iff|apply only_atoms_verified_b_iff]. Qed.
+
+(* what run_c13 prints: (c, universe, encoded universe, w) per side; w odd = db_wfb, w = 3 = both deciders *)
+Theorem C13_run_reports_coverage : forall a c u e w,
+  universe_arg a = (c, u, e, w) ->
+  (w = 1 \/ w = 3 -> c = 0 \/ c = 5 \/ c = 7)%Z /\ (w = 3 -> (c = 0 \/ c = 5) /\ u <> None)%Z.
+Proof. exact universe_arg_covered. Qed.
 
 (* ---------------------------------------------------------------- the specification stage *)
 Theorem C13_spec_from_label_map : forall rep fpath stored (d : smap) root_eq start order fuel keys,
@@ -424,6 +470,65 @@ Proof.
   intros key z [H|[H|[H|[]]]] Hz; inversion H; subst; try reflexivity. discriminate.
 Qed.
 
+(* C13_construct_total applied: ex_db is well formed for ex_lis (decided by db_wfb), so no error state; it also
+   has only atoms verified EXCEPT the empty class 4 (skipped), so the universe is built *)
+Example C13_construct_total_applied :
+  db_wf ex_db ex_lis /\ (forall e, construct ex_db ex_lis <> CErr e) /\ exists s, construct ex_db ex_lis = COk s.
+Proof.
+  assert (H : db_wf ex_db ex_lis) by (apply db_wfb_iff; vm_compute; reflexivity).
+  split; [exact H|]. split; [exact (C13_construct_total ex_db ex_lis H)|].
+  apply C13_construct_ok; [exact H|]. apply only_atoms_verified_b_iff. vm_compute. reflexivity.
+Qed.
+
+(* near misses: each violates exactly one clause of db_wf and construct answers CErr.
+   _key: the entry (3, []) of lis has no stored preimage (KeyError in _get_class_and_rule);
+   _atom: the stored rule of the atom 1 is a `Rule` (kind 0): get_terms raises RuntimeError;
+   _children: the non-empty non-atom class 3 carries a `Rule` without children: the assert fails — the shape of
+   the failure a172a92 repaired (there the parent was an EMPTY start class, now skipped: ex_db's label 4) *)
+Definition ex_db_atom_rule : rdb :=
+  mkDB 5%nat [0; 1; 1; 3; 4; 0]%nat
+       [(false, None); (false, Some 1%Z); (false, None); (false, None); (true, None); (false, None)]
+       [((0, [1; 2])%nat, 0%Z); ((1, [])%nat, 0%Z); ((4, [])%nat, (-1)%Z)].
+Definition ex_db_no_children : rdb :=
+  mkDB 5%nat [0; 1; 1; 3; 4; 0]%nat
+       [(false, None); (false, Some 1%Z); (false, None); (false, None); (true, None); (false, None)]
+       [((0, [1; 2])%nat, 0%Z); ((1, [])%nat, (-1)%Z); ((3, [])%nat, 0%Z)].
+Example C13_construct_near_miss_key :
+  construct ex_db (ex_lis ++ [(3, [])%nat]) = CErr E_KEY /\ db_wfb ex_db (ex_lis ++ [(3, [])%nat]) = false /\
+  ~ has_preimage ex_db (3, [])%nat /\
+  (forall key, used_key ex_db (ex_lis ++ [(3, [])%nat]) key -> key_wfb ex_db key = true).
+Proof.
+  split; [vm_compute; reflexivity|]. split; [vm_compute; reflexivity|]. split.
+  - intros H. apply has_preimage_b_iff in H. vm_compute in H. discriminate.
+  - intros key [[H|[H|[H|[]]]] _]; subst; vm_compute; reflexivity.
+Qed.
+Example C13_construct_near_miss_atom :
+  construct ex_db_atom_rule ex_lis = CErr E_RUNTIME /\ db_wfb ex_db_atom_rule ex_lis = false /\
+  (forall e, In e ex_lis -> has_preimage ex_db_atom_rule e).
+Proof.
+  split; [vm_compute; reflexivity|]. split; [vm_compute; reflexivity|].
+  intros e [H|[H|[H|[]]]]; subst; apply has_preimage_b_iff; vm_compute; reflexivity.
+Qed.
+Example C13_construct_near_miss_children :
+  construct ex_db_no_children [(0, [1; 1]); (1, []); (3, [])]%nat = CErr E_ASSERT /\
+  db_wfb ex_db_no_children [(0, [1; 1]); (1, []); (3, [])]%nat = false /\
+  (forall e, In e [(0, [1; 1]); (1, []); (3, [])]%nat -> has_preimage ex_db_no_children e).
+Proof.
+  split; [vm_compute; reflexivity|]. split; [vm_compute; reflexivity|].
+  intros e [H|[H|[H|[]]]]; subst; apply has_preimage_b_iff; vm_compute; reflexivity.
+Qed.
+(* the refusal is not an error state: a verified non-atom (label 3, verification rule) gives CRefused under db_wf,
+   and only_atoms_verified is what excludes it *)
+Definition ex_db_verified_nonatom : rdb :=
+  mkDB 5%nat [0; 1; 1; 3; 4; 0]%nat
+       [(false, None); (false, Some 1%Z); (false, None); (false, None); (true, None); (false, None)]
+       [((0, [1; 2])%nat, 0%Z); ((1, [])%nat, (-1)%Z); ((3, [])%nat, (-1)%Z)].
+Example C13_construct_refusal_is_not_an_error :
+  db_wfb ex_db_verified_nonatom [(0, [1; 1]); (1, []); (3, [])]%nat = true /\
+  only_atoms_verified_b ex_db_verified_nonatom [(0, [1; 1]); (1, []); (3, [])]%nat = false /\
+  construct ex_db_verified_nonatom [(0, [1; 1]); (1, []); (3, [])]%nat = CRefused.
+Proof. repeat split; vm_compute; reflexivity. Qed.
+
 (* an oracle that answers every question *)
 Example C13_total_oracle : forall k : qkey, (fun _ : qkey => Some true) k <> None.
 Proof. intros k. discriminate. Qed.
@@ -502,7 +607,74 @@ Example C13_root_label_instead_of_start :
     dom dict 5%nat = false.
 Proof. eexists. split; vm_compute; reflexivity. Qed.
 
+(* ---------------------------------------------------------------- bridge to the constructor (C02) *)
+Import Spec.Grouping Spec.GroupingWf Parallel.CtorReach Parallel.CtorBridge.
+
+(* every class of the extractor's rule set is reachable from the start class *)
+Theorem C13_rule_set_reachable : forall rep fpath stored tree start order dict,
+  (forall l t, rep l = rep t -> fpath l t <> [] /\ hd O (fpath l t) = l /\ last (fpath l t) O = t) ->
+  (forall l t, rep l = rep t -> forall x, In x (fpath l t) -> rep x = rep l) ->
+  (forall l t, rep l = rep t -> NoDup (fpath l t)) ->
+  (forall l c c', In (l, c) tree -> In (l, c') tree -> c = c') ->
+  (forall e, In e tree -> treach tree (rep start) (fst e)) ->
+  (forall d0 e2p, decompositions rep stored tree [] [] = Some (d0, e2p) ->
+     forall l, In l order -> no_lhs d0 start l = true) ->
+  extract rep fpath stored tree start order = Some dict ->
+  (forall e, In e dict -> forall c, In c (snd e) -> dom dict c = true) ->
+  dom dict start = true ->
+  forall p cs, In (p, cs) dict -> kreach dict start p.
+Proof. exact extract_reachable. Qed.
+
+Theorem C13_rule_set_ctor_bridge_partial : forall rep fpath stored keys start order,
+  rule_set_ok rep fpath stored keys start order ->
+  exists dict, extract rep fpath stored keys start order = Some dict /\
+    forall is_empty ch eqv sh tag,
+      ruledata_ok is_empty ch eqv dict ->
+      chains start (to_gdict ch eqv sh tag dict) -> reachable start (to_gdict ch eqv sh tag dict) ->
+      ungroup (rules_dict (to_rules ch eqv sh tag dict)) = to_gdict ch eqv sh tag dict /\
+      wf_input is_empty start (to_gdict ch eqv sh tag dict) /\
+      (forall e, spec_init is_empty start (to_rules ch eqv sh tag dict) true <> XErr e).
+Proof. exact rule_set_ctor_bridge_partial. Qed.
+
+Theorem C13_label_map_meets_constructor_contract : forall rep fpath,
+  (forall l t, rep l = rep t -> fpath l t <> [] /\ hd O (fpath l t) = l /\ last (fpath l t) O = t) ->
+  (forall l t, rep l = rep t -> forall x, In x (fpath l t) -> rep x = rep l) ->
+  (forall l t, rep l = rep t -> NoDup (fpath l t)) ->
+  forall stored (d : smap) root_eq start order fuel keys,
+  tree_keys d root_eq fuel = Some keys ->
+  rep start = root_eq ->
+  (forall e, In e keys -> exists k, In k stored /\ eqv_key rep k = e) ->
+  (forall d0 e2p, decompositions rep stored keys [] [] = Some (d0, e2p) ->
+     forall l, In l order <-> no_lhs d0 start l = true) ->
+  exists dict, extract rep fpath stored keys start order = Some dict /\
+    forall is_empty ch eqv sh tag,
+      ruledata_ok is_empty ch eqv dict ->
+      chains start (to_gdict ch eqv sh tag dict) ->
+      reachable start (to_gdict ch eqv sh tag dict) /\
+      wf_input is_empty start (ungroup (rules_dict (to_rules ch eqv sh tag dict))) /\
+      (forall e, spec_init is_empty start (to_rules ch eqv sh tag dict) true <> XErr e).
+Proof. exact label_map_meets_constructor_contract. Qed.
+
+(* applied: the label map exd1-like example of C13_start_not_representative: start label 5 (representative 0),
+   label 2 equivalent to the atom 1; rule data: children = the key's, no rule is an equivalence except the path
+   steps (unary) *)
+Definition ex_eqv (e : rkey) : bool := match snd e with [c] => Nat.eqb (ex_rep (fst e)) (ex_rep c) | _ => false end.
+Example C13_label_map_meets_constructor_contract_applied :
+  exists dict, extract ex_rep ex_fpath [(0, [1; 2]); (1, [])]%nat [(0, [1; 1]); (1, [])]%nat 5%nat [5; 2]%nat = Some dict /\
+    wf_input (fun _ => false) 5%nat
+      (ungroup (rules_dict (to_rules (@snd nat (list nat)) ex_eqv (fun _ => []) (fun _ => 0%Z) dict))) /\
+    (forall e, spec_init (fun _ => false) 5%nat
+                 (to_rules (@snd nat (list nat)) ex_eqv (fun _ => []) (fun _ => 0%Z) dict) true <> XErr e).
+Proof.
+  eexists. split; [vm_compute; reflexivity|].
+  match goal with |- ?A /\ _ => assert (W : A) by (apply wf_inputb_sound; vm_compute; reflexivity) end.
+  split; [exact W|]. exact (proj1 (Spec.GroupingInit.spec_init_ok _ _ _ W)).
+Qed.
+
 Print Assumptions C13_matched_pair.
+Print Assumptions C13_rule_set_reachable.
+Print Assumptions C13_rule_set_ctor_bridge_partial.
+Print Assumptions C13_label_map_meets_constructor_contract.
 Print Assumptions C13_matched_pair_eqpath.
 Print Assumptions C13_base_finder_never_raises.
 Print Assumptions C13_base_finder_total.
@@ -512,6 +684,10 @@ Print Assumptions C13_first_search_sound.
 Print Assumptions C13_failure_memo_sound.
 Print Assumptions C13_maps_use_rules.
 Print Assumptions C13_universe_well_formed.
+Print Assumptions C13_construct_total.
+Print Assumptions C13_construct_ok.
+Print Assumptions C13_db_wf_decidable.
+Print Assumptions C13_run_reports_coverage.
 Print Assumptions C13_spec_from_label_map.
 Print Assumptions C13_two_rule_sets.
 Print Assumptions C13_two_rule_sets_eqpath.
